@@ -16,7 +16,8 @@ MC_ENABLED = True
 
 def run_scenario(ctx, name, salt, seconds):
     res, out, rc = ctx.go_test("internal/aggregator", "TestVerifC01",
-                               env={"VERIF_C01_SCENARIO": name, "VERIF_C01_SALT": salt, "VERIF_C01_SECONDS": seconds},
+                               env={"VERIF_C01_SCENARIO": name, "VERIF_C01_SALT": salt, "VERIF_C01_SECONDS": seconds,
+                                    "VERIF_C01_INSERTERS": 1 if name == "conveyor-full" else 2},
                                timeout=600)
     res = ctx.need_result(res, out, rc, "TestVerifC01 " + name)
     return name, salt, res
@@ -80,14 +81,14 @@ def run(ctx):
                 else ["Conveyor_mc.cfg", "Conveyor_progress.cfg"])
         mcx = concurrent.futures.ThreadPoolExecutor(max_workers=2)
         mcs = [mcx.submit(ctx.tlc, "ConveyorMC", c, workers=6, timeout=3400 if th else 900, coverage=False) for c in cfgs]
-    scen = [("scripted", 0, 30), ("agent-restart", 0, 46)]
+    scen = [("scripted", 0, 30), ("agent-restart", 0, 46), ("conveyor-full", 0, 26)]
     if th:
         scen += [("random", ctx.seed * 100 + k, 40) for k in range(7)]
     else:
         scen += [("random", ctx.seed * 100, 26)]
     ok = 0
     ctx.go_build_test("internal/aggregator")
-    with concurrent.futures.ThreadPoolExecutor(max_workers=4) as ex:
+    with concurrent.futures.ThreadPoolExecutor(max_workers=4) as ex:  # scenarios are real-time bound, not CPU bound
         futs = [ex.submit(run_scenario, ctx, *sc) for sc in scen]
         results = [f.result() for f in futs]
     for f in mcs:
